@@ -27,6 +27,12 @@ import (
 // words, comments, placeholders, and escaped characters are all treated
 // literally and written as they appear in the input.
 func Format(input []byte) []byte {
+	// an empty input is not a Caddyfile (the lexer rejects it);
+	// do not turn it into one by appending a newline
+	if len(input) == 0 {
+		return input
+	}
+
 	input = bytes.TrimSpace(input)
 
 	// the lexer discards a byte order mark at the very beginning of
